@@ -585,6 +585,13 @@ class update_if_outdated(_FsContract):
         d = str(m.DEFAULT_PATH)
         from evo.tools.settings_template import DEFAULT_SETTINGS_DICT
         written = [e for e in w.events[old.n:] if e[0] == "replace" and e[2] == d]
+        vmark = [k for k, e in enumerate(w.events) if e[0] == "open-truncate" and e[1] == str(m.USER_ASSETS_VERSION_PATH)]
+        if written or vmark:
+            # a kill between the two steps must leave the upgrade to be redone by the next start: the version marker may
+            # only be rewritten once the upgraded document is in place
+            kdoc = [k for k, e in enumerate(w.events) if e[0] == "replace" and e[2] == d]
+            yield Clause("version_marker_rewritten_only_after_the_upgraded_settings_are_in_place",
+                         bool(kdoc) and bool(vmark) and max(kdoc) < min(vmark), role="prop")
         if written:
             doc = w.content.get(d)
             before = stored_document(d)
